@@ -2,122 +2,11 @@
     a field merged through a named fragment, a fragment on an abstract type, an alias and @skip;
     an outcome tree with a resolver error under a non-null field and a null list item.  All
     hypotheses of the C01 theorems hold of it, and the response shows propagation. *)
+(** Everything lives in [Module A] (the names [Examples.C01.A.…] are used by Examples/C02.v). *)
 From Coq Require Import List NArith ZArith Bool String Ascii.
-From ApiFu Require Import Base.Sexp Exe.ExecData Exe.ExecModel Exe.ExecSpec Exe.ExecHyps Exe.ExecProofs.
+From ApiFu Require Import Base.Sexp.
 Import ListNotations.
 Open Scope string_scope.
-
-Definition nm (s : string) : name := map (fun c => N.of_nat (nat_of_ascii c)) (list_ascii_of_string s).
-Definition at_ (l c : N) : pos := {| line := l; col := c |}.
-
-Definition ex_schema : schema :=
-  {| types := [ (nm "Int", NScalar KInt); (nm "String", NScalar KString);
-                (nm "Q", NObject [ (nm "o", StNamed (nm "O")); (nm "l", StList (StNonNull (StNamed (nm "Int"))));
-                                   (nm "ln", StNonNull (StList (StNonNull (StNamed (nm "Int")))));
-                                   (nm "i", StNamed (nm "I")); (nm "u", StNamed (nm "U")) ] []);
-                (nm "O", NObject [ (nm "n", StNonNull (StNamed (nm "Int"))); (nm "s", StNamed (nm "String")) ] [nm "I"]);
-                (nm "P", NObject [ (nm "s", StNamed (nm "String")) ] [nm "I"]);
-                (nm "I", NInterface [ (nm "s", StNamed (nm "String")) ]);
-                (nm "U", NUnion [nm "O"; nm "P"]) ];
-     query := nm "Q"; mutation := None; subscription := None |}.
-
-(** query ($v: Boolean!) {
-      o { n } ...F l ln
-      i { s ... on O { x: n } } u @skip(if: $v) { __typename }
-    }
-    fragment F on Q { o { s } } *)
-Definition ex_doc : document :=
-  {| op_kind := OpQuery; op_pos := at_ 1 1;
-     op_sels := [ SField None (nm "o") (at_ 2 3) [] [SField None (nm "n") (at_ 2 7) [] []];
-                  SSpread (nm "F") (at_ 2 11) [];
-                  SField None (nm "l") (at_ 2 16) [] [];
-                  SField None (nm "ln") (at_ 2 18) [] [];
-                  SField None (nm "i") (at_ 3 3) []
-                         [ SField None (nm "s") (at_ 3 7) [] [];
-                           SInline (Some (nm "O")) (at_ 3 9) [] [SField (Some (nm "x")) (nm "n") (at_ 3 20) [] []] ];
-                  SField None (nm "u") (at_ 3 29) [DSkip (CVar (nm "v")) (at_ 3 31) (at_ 3 41)] [SField None n_typename (at_ 3 46) [] []] ];
-     frags := [ {| fr_name := nm "F"; fr_cond := nm "Q";
-                   fr_sels := [SField None (nm "o") (at_ 5 19) [] [SField None (nm "s") (at_ 5 23) [] []]] |} ] |}.
-
-Definition ex_env : env := [(nm "v", Some false)].
-
-Definition ex_W : outcome :=
-  OObj (nm "Q")
-       [ (nm "o", OObj (nm "O") [ (nm "n", OErr); (nm "s", OLeaf (GString (nm "x"))) ]);
-         (nm "l", OList [OLeaf (GInt IInt 1); ONil]);
-         (nm "ln", OList [OLeaf (GInt IInt 1); OLeaf (GF64 (Fin 2 0))]);
-         (nm "i", OObj (nm "O") [ (nm "s", OLeaf (GString (nm "y"))); (nm "n", OLeaf (GInt I64 3)) ]);
-         (nm "u", OObj (nm "P") []) ].
-
-Definition ex_fuel : nat := default_fuel ex_doc.
-
-Example hypotheses_hold :
-  doc_ok ex_schema ex_doc ex_env ex_fuel ex_fuel = true /\
-  type_names_okb ex_schema = true /\ doc_positions_okb ex_doc = true.
-Proof. vm_compute. repeat split. Qed.
-
-(** o is nulled by the failing non-null n (resolver error: located at the one field node n);
-    l is nulled by its null item (error at path l.1); everything else is delivered, in document
-    order, o appearing once although it is selected twice. *)
-Example response :
-  run fixed ex_schema ex_doc ex_env ex_fuel ex_W =
-  Done (Some (JObj [ (nm "o", JNull); (nm "l", JNull); (nm "ln", JArr [JInt 1; JInt 2]);
-                     (nm "i", JObj [(nm "s", JStr (nm "y")); (nm "x", JInt 3)]);
-                     (nm "u", JObj [(n_typename, JStr (nm "P"))]) ]))
-       [ {| e_path := [PKey (nm "o"); PKey (nm "n")]; e_locs := [at_ 2 7] |};
-         {| e_path := [PKey (nm "l"); PIdx 1]; e_locs := [at_ 2 16] |} ].
-Proof. vm_compute. reflexivity. Qed.
-
-Example reference :
-  let r := exec_spec ex_schema ex_doc ex_env ex_fuel ex_W in
-  List.length (all_errors r) = 2%nat /\
-  failure_nulls r =
-  [ ([PKey (nm "o")], [ {| e_path := [PKey (nm "o"); PKey (nm "n")]; e_locs := [at_ 2 7] |} ]);
-    ([PKey (nm "l")], [ {| e_path := [PKey (nm "l"); PIdx 1]; e_locs := [at_ 2 16] |} ]) ].
-Proof. vm_compute. split; reflexivity. Qed.
-
-(** the theorems of Properties/C01.v instantiated *)
-Example instance_total : exists d errs, run fixed ex_schema ex_doc ex_env ex_fuel ex_W = Done d errs.
-Proof.
-  destruct hypotheses_hold as [Hd [Hn Hp]].
-  exact (exec_total ex_schema ex_doc ex_env ex_fuel Hn Hp ex_fuel Hd ex_W).
-Qed.
-
-(** stage B: the hypothesis [dirs_evaluable] holds of the example (and fails without a value for $v) *)
-Example dirs_evaluable_holds : dirs_evaluable ex_doc ex_env = true /\ dirs_evaluable ex_doc [] = false.
-Proof. vm_compute. split; reflexivity. Qed.
-
-(** stage B: several operations.  query A {...ex_doc...}  query B { __typename } *)
-Definition ex_opA : operation :=
-  {| o_name := Some (nm "A"); o_kind := OpQuery; o_pos := at_ 1 1; o_sels := op_sels ex_doc |}.
-Definition ex_opB : operation :=
-  {| o_name := Some (nm "B"); o_kind := OpQuery; o_pos := at_ 7 1;
-     o_sels := [SField None n_typename (at_ 7 11) [] []] |}.
-Definition ex_request : request_doc := {| r_ops := [ex_opA; ex_opB]; r_frags := frags ex_doc |}.
-
-Example request_selects :
-  s_get_operation ex_request (opname_of (nm "A")) = Some ex_opA /\
-  get_operation ex_request (nm "B") = GOp ex_opB /\
-  s_get_operation ex_request (opname_of []) = None /\
-  run_request fixed ex_schema ex_request [] ex_env ex_fuel ex_W = Done None [ {| e_path := []; e_locs := [at_ 7 1] |} ] /\
-  run_request fixed ex_schema ex_request (nm "C") ex_env ex_fuel ex_W = Done None [ {| e_path := []; e_locs := [] |} ] /\
-  run_request fixed ex_schema ex_request (nm "A") ex_env ex_fuel ex_W = run fixed ex_schema ex_doc ex_env ex_fuel ex_W.
-Proof. vm_compute. repeat split; reflexivity. Qed.
-
-(** stage B: the recursive key-order predicate is inhabited by the example's data *)
-From ApiFu Require Import Exe.ExecKeyOrder Exe.ExecKeyOrderProofs.
-Example instance_ordered :
-  exists kvs, ordered_obj ex_schema ex_doc ex_env ex_fuel (nm "Q") (op_sels ex_doc) kvs /\ List.length kvs = 5%nat.
-Proof.
-  destruct hypotheses_hold as [Hd [Hn Hp]].
-  destruct (exec_data_ordered ex_schema ex_doc ex_env ex_fuel ex_fuel ex_W _ _ Hn Hp Hd response) as [rt [kvs [Hrt [Hj Ho]]]].
-  vm_compute in Hrt. inversion Hrt; subst rt. inversion Hj; subst kvs.
-  eexists. split; [exact Ho|reflexivity].
-Qed.
-
-(** * The argument-aware development (coq/ExeA, what Properties/C01.v speaks about since stage C).
-    The definitions above are over the argument-free development coq/Exe, which C02's bridge
-    (Fut/BridgeC01.v, Examples/C02.v) still refers to. *)
 From ApiFu Require Val.Values.
 From ApiFu Require ExeA.ArgData ExeA.ArgArgs ExeA.ArgModel ExeA.ArgSpec ExeA.ArgHyps ExeA.ArgProofs
      ExeA.ArgKeyOrder ExeA.ArgKeyOrderProofs.
